@@ -39,6 +39,15 @@ def _rough():
 @st.composite
 def charnock_case(draw):
     form = draw(st.sampled_from(["scalar", "ndarray", "ndarray", "dataarray", "ladder"]))
+    if draw(st.integers(0, 11)) == 0:
+        # a long record in one call (a year of hourly winds, a model field): thousands of elements over the whole range
+        form = draw(st.sampled_from(["ndarray", "dataarray"]))
+        n = draw(st.sampled_from([1100, 2600]))
+        rng = np.random.default_rng(draw(st.integers(0, 2 ** 32 - 1)))      # seeded by a drawn value: deterministic
+        U = np.exp(rng.uniform(math.log(0.1), math.log(80.0), n))
+        U[rng.uniform(size=n) < 0.02] = float("nan")
+        return {"form": form, "U": [float(x) for x in U], "alpha": draw(st.one_of(st.just(0.012), fl(0.005, 0.04))),
+                "visc": draw(st.sampled_from([0.0, 0.11])), "long_record": True}
     if form == "scalar":
         U = [draw(st.one_of(log_uniform(0.1, 80.0), log_uniform(0.1, 80.0), st.sampled_from([0.1, 80.0]), fl(60.0, 80.0)))]
     elif form == "ladder":
@@ -102,6 +111,8 @@ def run_charnock(c):
     classes = ["input_" + form, "viscous" if cv else "no_viscous"]
     if (~fin).any():
         classes.append("has_nan")
+    if c.get("long_record"):
+        classes.append("long_record_over_1000_winds_in_one_call")
     return {"nontrivial": nontriv, "classes": classes}
 
 
